@@ -447,6 +447,7 @@ func (cu *CodeUtils) BuildFuncMap() template.FuncMap {
 
 		"IsBaseType":        IsBaseType,
 		"ZeroWriter":        ZeroWriter,
+		"ZeroWriterCtx":     ZeroWriterCtx,
 		"NeedRedirect":      NeedRedirect,
 		"IsFixedLengthType": IsFixedLengthType,
 		"SupportIsSet":      SupportIsSet,
